@@ -27,11 +27,14 @@ def load_known(pid):
             data = json.load(f)
     except FileNotFoundError:
         return []
-    return [e for e in data.get("findings", []) if e.get("property") == pid
+    return [e for e in data.get("findings", [])
+            if (pid in e.get("properties", []) or e.get("property") == pid)
             and e.get("status", "open") == "open"]
 
 
 def match_known(known, signature):
+    import re
+    signature = re.sub(r"^C\d\d:", "", signature)
     for e in known:
         for pat in e["signatures"]:
             if fnmatch.fnmatchcase(signature, pat):
